@@ -63,6 +63,7 @@ func c01Encoder(c *Ctx) {
 			c.R.Unknown(rule, key, c.P.FuncPos(hs), "fold failed: "+err.Error())
 		} else {
 			c.R.AddCells(len(paths))
+			c.harvestBounds(hs, cellPaths(paths))
 			var problems []string
 			for _, p := range paths {
 				if p.Abort != "" || p.Panic {
@@ -122,6 +123,7 @@ func c01Encoder(c *Ctx) {
 		return
 	}
 	c.R.AddCells(len(paths))
+	c.harvestBounds(wh, cellPaths(paths))
 	var problems []string
 	var sample string
 	for _, p := range paths {
@@ -413,9 +415,23 @@ func c01Decoder(c *Ctx, rule string, f *ssa.Function, method bool) {
 	}
 	if checked < 65536 {
 		problems = append(problems, fmt.Sprintf("undecided: only %d of 65536 (b0,b1) pairs reached", checked))
+	} else {
+		all := make([]*fold.Path, len(paths))
+		for i, p := range paths {
+			all[i] = p.Path
+		}
+		c.harvestBounds(f, all)
 	}
 	c.R.Sample(map[string]any{"rule": rule, "decoder": f.String(), "paths": len(paths), "first_two_byte_values_covered": checked})
 	c.verdict(rule, key, c.P.FuncPos(f), problems, fmt.Sprintf("%d paths, all 65536 (b0,b1) pairs: reads 2 then exactly extra bytes, fields per RFC layout, MSB refused, read errors propagated", len(paths)))
+}
+
+func cellPaths(ps []fold.CellPath) []*fold.Path {
+	out := make([]*fold.Path, len(ps))
+	for i, p := range ps {
+		out[i] = p.Path
+	}
+	return out
 }
 
 func laneNamesPlain(el []fold.Val) []string {
